@@ -1,7 +1,7 @@
 //! C01: every public simplification procedure of simplify.rs on small pseudo-random diagrams and on diagrams of small random circuits:
 //! it returns (within a time budget), does not panic, and keeps the EXACT tensor (entries in Z[omega]/2^k) — relative to the library's
 //! own tensor evaluator.  Phases are multiples of pi/4, so equality is exact.
-use crate::c04::{describe, diagram, same_map, star, Rng};
+use crate::c04::{describe, diagram, gadget_farm, same_map, scalar_pieces, star, Rng};
 use crate::{guard, Ctx};
 use quizx::circuit::Circuit;
 use quizx::graph::GraphLike;
@@ -37,7 +37,8 @@ pub fn run(cx: &mut Ctx) {
     let seed: u64 = std::env::var("VERIF_SEED").ok().and_then(|s| s.parse().ok()).unwrap_or(0);
     let n = 150 * crate::scale();
     let mut r = Rng(0xc01_5eed ^ seed.wrapping_mul(0x9e3779b97f4a7c15));
-    let diagrams: Vec<Graph> = (0..n).map(|k| match k % 4 { 0 => diagram(&mut r, false), 1 => diagram(&mut r, true), 2 => star(&mut r), _ => circuit_diagram(&mut r) }).collect();
+    let mut diagrams: Vec<Graph> = (0..n).map(|k| match k % 5 { 0 => diagram(&mut r, false), 1 => diagram(&mut r, true), 2 => star(&mut r), 3 => gadget_farm(&mut r), _ => circuit_diagram(&mut r) }).collect();
+    diagrams.extend(scalar_pieces());
     let simps: Vec<(&str, fn(&mut Graph) -> bool)> = vec![
         ("id_simp", |g| id_simp(g)), ("local_comp_simp", |g| local_comp_simp(g)), ("spider_simp", |g| spider_simp(g)), ("pivot_simp", |g| pivot_simp(g)),
         ("gen_pivot_simp", |g| gen_pivot_simp(g)), ("scalar_simp", |g| scalar_simp(g)), ("flow_simp", |g| flow_simp(g)),
